@@ -13,5 +13,5 @@ s=re.sub(old,new,s,count=1)
 open(p,'w').write(s)
 PY
 cd /verif
-VERIF_REPO=$WT ./check $4 | grep -v "^  failed" | tail -${5:-4}
+VERIF_EVIDENCE_DIR=/tmp/mut_evidence VERIF_REPLAY_DIR=/tmp/mut_replay VERIF_REPO=$WT ./check $4 | grep -v "^  failed" | tail -${5:-4}
 git -C $WT checkout -q -- . && git -C $WT checkout -q --detach $(git -C /repo rev-parse HEAD)
